@@ -11,7 +11,7 @@ import (
 
 // Used to marshal input types for default value introspection.
 func marshalValue(t schema.Type, v interface{}) (string, error) {
-	if v == schema.Null {
+	if v == nil || v == schema.Null {
 		return "null", nil
 	}
 
